@@ -633,6 +633,15 @@ impl<'tcx> Walk<'tcx> {
                                         ]));
                                         o.push(("unsize_from", J::s(format!("{}", a))));
                                         o.push(("unsize_to", J::s(format!("{}", b))));
+                                        // making a vtable for a closure makes its body reachable even when the virtual call sits in a
+                                        // std function without MIR (`Once::call_once` -> `Once::call(&mut dyn FnMut)`): intern the body
+                                        // (not an edge: cones do not follow it; the instance and what it calls are in the fact base)
+                                        if let ty::Closure(d, ca) = a.kind() {
+                                            let k = ca.as_closure().kind();
+                                            let i = Instance::resolve_closure(tcx, *d, ca, k);
+                                            let id = self.intern(i);
+                                            o.push(("vtable_fn", J::Int(id as i128)));
+                                        }
                                     }
                                 }
                             }
